@@ -63,9 +63,9 @@ def xml_proppatch(base_prefix: str, path: str,
                                  dict(collection.get_meta()))
     all_props_with_remove.update(props_with_remove)
     all_props = radicale_item.check_and_sanitize_props(all_props_with_remove)
-    collection.set_meta(all_props)
     for short_name in props_with_remove:
         props_ok.append(ET.Element(xmlutils.make_clark(short_name)))
+    collection.set_meta(all_props)
 
     return multistatus
 
